@@ -65,11 +65,20 @@ DATA_DEPENDENT = [
     (r"^regex::(bytes::)?Regex(Builder)?::(new|build)$", "regex compilation fails on an invalid pattern"),
     (r"DateTime::<.*>::parse_from_|NaiveDateTime::parse_from_str$|NaiveDate::parse_from_str$", "timestamp parsing fails on any text outside the format"),
     (r"^serde_json::(de::)?from_(str|slice|value)$", "JSON decoding fails on malformed input"),
+    (r"^ordered_float::NotNan::<T>::new$", "fails for NaN: the text \"nan\" parses as a float (str::parse, nom's double), and inf * 0 or inf - inf is NaN"),
+    (r"^chrono::FixedOffset::(east|west)_opt$", "None for an offset of a day or more"),
+    (r"^chrono::Naive(Date|Time)::from_(ymd|hms|hms_milli|hms_micro|hms_nano|yo|num_days_from_ce)_opt$", "None for an out-of-range component"),
 ]
 DATA_DEPENDENT_OK = {
     # (function, callee tail) -> reason the argument is not run-time content
     ("stdlib::parse_apache_log::parse_apache_log", "from_utf8"):
         "the argument is the `format` bytes after they were matched against the literals b\"common\" / b\"combined\" / b\"error\" (any other value hits the arm before)",
+    ("stdlib::random_float::random_float", "new"):
+        "the argument is the result of random_range over a non-empty finite range (R04m), which is a finite float",
+    ("parser::lex::Lexer::<'input>::numeric_literal_or_identifier", "new"):
+        "the argument is str::parse::<f64> of a string of ASCII digits, `_` removed, and one `.`: never the text \"nan\"",
+    ("value::value::serde::<impl std::convert::From<serde_json::Value> for value::value::Value>::from", "new"):
+        "the argument is serde_json::Number::as_f64; JSON has no NaN literal and serde_json::Number cannot hold one",
 }
 
 
@@ -79,7 +88,7 @@ def rule_r04j(chk, M):
     from cfgq import op_local
     facts = chk.facts
     rid = "R04j"
-    chk.rule(rid, "no unwrap/expect directly on the result of a content-dependent fallible library call in resolve-reachable stdlib code", floor=35)
+    chk.rule(rid, "no unwrap/expect directly on the result of a content-dependent fallible library call in resolve-reachable code (stdlib and the parsing/grok/value modules it reaches)", floor=60)
     pats = [(re.compile(p), why) for p, why in DATA_DEPENDENT]
     seen_all = set()
     for f in M.functions.values():
@@ -87,10 +96,10 @@ def rule_r04j(chk, M):
         seen_all |= set(seen)
     done = set()
     for n in sorted(seen_all):
-        if not (n.startswith("stdlib::") or n.startswith("<stdlib::")):
+        if n.startswith("cli::") or n.startswith("<cli::"):
             continue
         b = facts.body(n)
-        if b is None:
+        if b is None or "/build/" in b.file:
             continue
         for bb, t in b.calls():
             cal = b.callee(t)
@@ -104,6 +113,15 @@ def rule_r04j(chk, M):
                 if x[0] != "call":
                     continue
                 src = b.callee(x[3])
+                from facts import flow_sources as _fs
+
+                def _is_const(a):
+                    if a.get("k") == "const":
+                        return True
+                    al = op_local(a)
+                    srcs = _fs(b, al) if al is not None else set()
+                    return bool(srcs) and all(sc[0] == "const" for sc in srcs)
+                const_args = bool(x[3]["args"]) and all(_is_const(a) for a in x[3]["args"])
                 key = (n, src, cal.rsplit("::", 1)[1], t["ln"])
                 if key in done:
                     continue
@@ -112,6 +130,8 @@ def rule_r04j(chk, M):
                 base = n.split("::{closure")[0]
                 tail = src.rsplit("::", 1)[1]
                 exempt = DATA_DEPENDENT_OK.get((base, tail))
+                if why and const_args and not exempt:
+                    exempt = "every argument of the producer is a compile-time constant"
                 d = {"fn": n, "producer": src, "consumer": key[2], "class": "content-dependent" if why else "outside the rule: the producer fails only on an internal invariant or the environment, not on argument content (not decided here)"}
                 if exempt:
                     d["reviewed"] = exempt
